@@ -348,17 +348,27 @@ fn run_property(o: &Opts, out: &mut dyn Write) -> i32 {
     if std::env::var("VERIF_NO_SWR").is_err() {
         let sw = props::sweeps_for(prop, &mut rng, &o.tier);
         if !sw.is_empty() {
-            let nsw = sw.iter().filter(|c| c.cmds.iter().any(|m| matches!(m, Cmd::SWR { .. }))).count() as u64;
-            sweep_evals += nsw * 65536;
+            let mut nsw = 0u64;
+            let mut steps = 0u64;
+            for c in &sw {
+                for m in &c.cmds {
+                    if let Cmd::SWR { nblk, .. } = m {
+                        nsw += 1;
+                        steps += 65536 / (*nblk).max(1) as u64;
+                    }
+                }
+            }
+            sweep_evals += steps;
             sweep_info.push(format!(
-                "register sweeps: {} (encoding, 16-bit register) pairs, one step for each of the 65,536 values of the register (memory carried along), {} steps on each side",
-                nsw,
-                nsw * 65536
+                "register sweeps: {} sweeps of one encoding over the values of a 16-bit register (all 65,536, or a block of them with a second register held in a fixed relation; memory carried along), {} steps on each side",
+                nsw, steps
             ));
         }
         cases.extend(sw);
     }
     cases.extend(props::straddle_cases(&mut rng, prop, &o.tier));
+    cases.extend(props::ctl_cases(&mut rng, prop, &o.tier));
+    cases.extend(props::long_cases(&mut rng, prop, &o.tier));
     if std::env::var("VERIF_NO_HIST").is_err() {
         cases.extend(props::hist_for(prop, &mut rng, &o.tier));
     }
